@@ -74,6 +74,7 @@ def errName : Err → String
   | .uniqueLogId => "other"
   | .deadlock => "deadlock"
   | .aborted => "other"
+  | .noSavepoint => "other"
 
 /-- `forgeLog` retries on a deadlock or an idempotency-key conflict -/
 def retryable : Err → Bool
@@ -139,8 +140,16 @@ def ikAnswer (hash : Nat) (o : Out) : Resp :=
   | [id, h, tx] => if h.toNat = hash then { tx := tx.toNat, log := id.toNat, hit := true } else { err := "invalid-idempotency-input" }
   | _ => { err := "other" }
 
+/-- `recordedOutcome` (since /repo 0fbf80e): an attempt carrying an idempotency key that failed for a
+    non-retryable reason looks the key up once more; a recorded log is answered as an idempotency hit
+    (or the input mismatch), otherwise the attempt's own error stands. `recheck = false` is the code
+    before that repair. -/
+def recordedOutcome (recheck : Bool) (l ik hash : Nat) (fin : Resp → Prog) (own : Resp) : Prog :=
+  if !recheck || ik = 0 then fin own
+  else .stmt (.readIK l ik) fun o => if o.flag then fin (ikAnswer hash o) else fin own
+
 /-- `forgeLogRetry`: `runTx` in a loop (bounded by `fuel`; the real loop is unbounded) -/
-def forgeLogRetry (ops : TxOps) (l ik hash : Nat) (body : Body) (fin : Resp → Prog) : Nat → Prog
+def forgeLogRetry (recheck : Bool) (ops : TxOps) (l ik hash : Nat) (body : Body) (fin : Resp → Prog) : Nat → Prog
   | 0 => fin { err := "retry-budget" }
   | fuel + 1 =>
     .stmt ops.begin_ fun _ =>
@@ -151,30 +160,34 @@ def forgeLogRetry (ops : TxOps) (l ik hash : Nat) (body : Body) (fin : Resp → 
           if e = .uniqueTxId then fin { err := "panic" } else
           .stmt ops.rollback_ fun _ =>
           match e with
-          | .deadlock => forgeLogRetry ops l ik hash body fin fuel
+          | .deadlock => forgeLogRetry recheck ops l ik hash body fin fuel
           | .uniqueIK =>
             -- "A log with the IK could have been inserted in the meantime": read it on the parent store
             .stmt (.readIK l ik) fun o => if o.flag then fin (ikAnswer hash o) else fin { err := "panic" }
-          | e => fin { err := errName e })
-        (fun r => .stmt ops.rollback_ fun _ => fin { err := r })
+          | e => recordedOutcome recheck l ik hash fin { err := errName e })
+        (fun r => .stmt ops.rollback_ fun _ => recordedOutcome recheck l ik hash fin { err := r })
         (fun tx log => .stmt ops.commit_ fun _ => fin { tx := tx, log := log })
 
 def retryFuel : Nat := 4
 
 /-- `forgeLog` -/
-def forgeLog (ops : TxOps) (l ik hash : Nat) (body : Body) (fin : Resp → Prog) : Prog :=
+def forgeLogG (recheck : Bool) (ops : TxOps) (l ik hash : Nat) (body : Body) (fin : Resp → Prog) : Prog :=
   let run : Prog :=
     body
       (fun e =>
         if e = .uniqueTxId then fin { err := "panic" } else
         .stmt ops.rollback_ fun _ =>
-        if retryable e then forgeLogRetry ops l ik hash body fin retryFuel else fin { err := errName e })
-      (fun r => .stmt ops.rollback_ fun _ => fin { err := r })
+        if retryable e then forgeLogRetry recheck ops l ik hash body fin retryFuel
+        else recordedOutcome recheck l ik hash fin { err := errName e })
+      (fun r => .stmt ops.rollback_ fun _ => recordedOutcome recheck l ik hash fin { err := r })
       (fun tx log => .stmt ops.commit_ fun _ => fin { tx := tx, log := log })
   .stmt ops.begin_ fun _ =>
     if ik = 0 then run
     else .stmt (.readIK l ik) fun o =>
       if o.flag then .stmt ops.rollback_ fun _ => fin (ikAnswer hash o) else run
+
+/-- the code as it is now -/
+def forgeLog := forgeLogG true
 
 /-- `controllerFacade.handleState`: `inUse` is the ledger state the facade cached when the
     controller was obtained. `inner ops fin` is the wrapped operation. -/
@@ -195,14 +208,33 @@ def sendProg (q : Send) (inUse : Bool) : Prog :=
 def revertProg (q : Revert) (inUse : Bool) : Prog :=
   handleState q.l inUse fun ops fin => forgeLog ops q.l q.ik q.hash (revertBody q) fin
 
-/-- atomic bulk (`Bulker.Run` with `atomic`): `Controller.BeginTX` — which the state tracker
-    facade does NOT intercept — then every element as a nested `forgeLog`; stops at the first failure -/
-def bulkProg (elems : List Send) : Prog :=
-  let rec go (rs : List Resp) : List Send → Prog
-    | [] => .stmt .commit fun _ => .done { tx := (rs.head?.map (·.tx)).getD 0, log := (rs.head?.map (·.log)).getD 0 }
-    | q :: qs => forgeLog nestedTx q.l q.ik q.hash (sendBody q) fun r =>
-        if r.err = "" then go (r :: rs) qs else .stmt .rollback fun _ => .done { err := "bulk-element-failed" }
-  .stmt .begin fun _ => go [] elems
+/-- `handleState` of a facade around a TRANSACTIONAL controller (`controllerFacade.BeginTX`): the
+    nested BeginTX is a savepoint, LockLedger on the transaction a transaction-scoped advisory lock.
+    (Since /repo ed13690 the deferred `ctrl.Rollback` is skipped once the inner transaction ended;
+    before, it sent ROLLBACK TO SAVEPOINT for the released savepoint: 3B001, which aborts the block.) -/
+def handleStateNested (l : Nat) (inUse : Bool) (inner : TxOps → (Resp → Prog) → Prog) (fin : Resp → Prog) : Prog :=
+  if inUse then inner nestedTx fin
+  else
+    let bail (e : Err) : Prog := .stmt .rollbackTo fun _ => fin { err := errName e }
+    .stmt .savepoint fun _ =>
+    .stmt (.lockLedgerX l) fun o => guardErr o bail <|
+    .stmt (.updateState l) fun o => guardErr o bail <|
+      let rest : Prog := inner nestedTx fun r =>
+        if r.err = "" then .stmt .release fun _ => fin r
+        else .stmt .rollbackTo fun _ => fin r
+      if o.flag then .stmt (.setval l) fun _ => .stmt (.setval l) fun _ => rest else rest
+
+/-- atomic bulk (`Bulker.Run` with `atomic`): `Controller.BeginTX` on the state tracker facade, then
+    every element through the transactional facade (the first successful one moves its cached state
+    to in-use); stops at the first failure -/
+def bulkGo : Bool → List Resp → List Send → Prog
+  | _, rs, [] => .stmt .commit fun _ => .done { tx := (rs.head?.map (·.tx)).getD 0, log := (rs.head?.map (·.log)).getD 0 }
+  | inUse, rs, q :: qs =>
+    handleStateNested q.l inUse (fun ops fin => forgeLog ops q.l q.ik q.hash (sendBody q) fin) fun r =>
+      if r.err = "" then bulkGo true (r :: rs) qs else .stmt .rollback fun _ => .done { err := "bulk-element-failed" }
+
+def bulkProg (inUse : Bool) (elems : List Send) : Prog :=
+  .stmt .begin fun _ => bulkGo inUse [] elems
 
 /-- one log of an import stream (only NEW_TRANSACTION logs are generated) -/
 structure ImpLog where
